@@ -280,6 +280,11 @@ class RTL(keras.layers.Layer):
     self.init_min = init_min
     self.init_max = init_max
     self.separate_outputs = separate_outputs
+    if random_seed is None:
+      # The structure of the layer is derived from the seed in build(). Draw the
+      # seed now, so that it is part of get_config() and a layer rebuilt from
+      # its config has the same structure (and accepts the same weights).
+      random_seed = int(np.random.randint(0, 2**31 - 1))
     self.random_seed = random_seed
     self.num_projection_iterations = num_projection_iterations
     self.monotonic_at_every_step = monotonic_at_every_step
